@@ -605,7 +605,7 @@ class Interp:
         r = memo.get(id(node))
         if r is None:
             r = memo[id(node)] = (not isinstance(node, (ast.If, ast.For, ast.While, ast.With, ast.Try, ast.FunctionDef, ast.AsyncFunctionDef, ast.ClassDef, ast.AsyncFor, ast.AsyncWith, ast.Match, ast.Pass, ast.Break, ast.Continue, ast.Global, ast.Nonlocal, ast.Import, ast.ImportFrom))
-                                  and any(isinstance(n, ast.Call) for n in ast.walk(node)))
+                                  and any(isinstance(n, (ast.Call, ast.IfExp)) for n in ast.walk(node)))
         return r
 
     def _hoist_nested_awaits(self, node: Any) -> Optional[List[ast.stmt]]:
@@ -712,27 +712,28 @@ class Interp:
                 return ast.BoolOp(op=ast.And(), values=tests2)
             raise AnalysisError(f"unsupported match pattern {type(p).__name__} at {ctx.loc(node)}")
 
-        chain: Optional[ast.If] = None
-        last: Optional[ast.If] = None
-        for case in node.cases:
+        def build(i: int) -> List[ast.stmt]:
+            if i == len(node.cases):
+                return []
+            case = node.cases[i]
             pre: List[ast.stmt] = []
             t = test_of(case.pattern, pre)
-            if case.guard is not None:
-                if pre:
-                    raise AnalysisError(f"match capture with a guard at {ctx.loc(node)}")
-                t = ast.BoolOp(op=ast.And(), values=[t, case.guard])
-            cur = ast.If(test=t, body=pre + list(case.body), orelse=[])
-            if chain is None:
-                chain = cur
-            else:
-                assert last is not None
-                last.orelse = [cur]
-            last = cur
+            rest = build(i + 1)
+            if case.guard is None:
+                return [ast.If(test=t, body=pre + list(case.body), orelse=rest)]
+            if not pre:
+                return [ast.If(test=ast.BoolOp(op=ast.And(), values=[t, case.guard]), body=list(case.body), orelse=rest)]
+            # a capture is bound before its guard is evaluated (and stays bound when the guard fails)
+            inner = ast.If(test=case.guard, body=list(case.body), orelse=rest)
+            if isinstance(t, ast.Constant) and t.value is True:
+                return pre + [inner]
+            return [ast.If(test=t, body=pre + [inner], orelse=rest)]
+
         stmts: List[ast.stmt] = [ast.Assign(targets=[ast.Name(id=tmp, ctx=ast.Store())], value=node.subject)]
-        if chain is not None:
-            stmts.append(chain)
+        stmts.extend(build(0))
         for s_ in stmts:
-            ast.copy_location(s_, node)
+            if not hasattr(s_, "lineno"):
+                ast.copy_location(s_, node)
             ast.fix_missing_locations(s_)
         return self.exec_block(stmts, st, ctx)
 
@@ -1761,6 +1762,9 @@ class Interp:
 
     def st_Delete(self, node: ast.Delete, st: State, ctx: Ctx) -> List[Tuple[State, Any]]:
         raise AnalysisError(f"unsupported statement Delete at {ctx.loc(node)}")
+
+    def st_AsyncFunctionDef(self, node: ast.AsyncFunctionDef, st: State, ctx: Ctx) -> List[Tuple[State, Any]]:
+        return self.st_FunctionDef(node, st, ctx)  # type: ignore[arg-type]
 
     def st_FunctionDef(self, node: ast.FunctionDef, st: State, ctx: Ctx) -> List[Tuple[State, Any]]:
         st.env[node.name] = ("lambda", node, tuple(sorted(st.env.items(), key=lambda kv: kv[0])) if False else None, ctx.fi, dict(st.env))
@@ -2882,6 +2886,13 @@ class Interp:
             v = self.ev_Call(inner, st, ctx, awaited=True)
         else:
             v = self.eval(inner, st, ctx)
+            # awaiting what an earlier call of an environment coroutine function returned: that call is awaited now
+            for i_ in range(len(st.events) - 1, -1, -1):
+                e_ = st.events[i_]
+                if e_.kind == "call" and e_.result == v and not e_.awaited:
+                    import dataclasses as _dc
+                    st.events[i_] = _dc.replace(e_, awaited=True)
+                    break
         if isinstance(v, tuple) and v[:1] == ("coro",):
             return self.call(v[1], list(v[2]), dict(v[3]), st, ctx, node, True)
         return v
@@ -2946,6 +2957,9 @@ class Interp:
         if t == "extmeth":
             return self.lib.call_method(self, fv[1], fv[2], args, kwargs, st, ctx, node, awaited)
         if t == "lambda":
+            if isinstance(fv[1], ast.AsyncFunctionDef) or (isinstance(fv[1], ast.FunctionDef) and kwargs):
+                # a nested coroutine function (or a keyword call of a nested function): called like any repository function
+                return self.call(("func", self.closure_function(fv)), args, kwargs, st, ctx, node, awaited)
             return self.call_lambda(fv, args, st, ctx, node)
         if t == "partialobj":
             return self.call(fv[1], list(fv[2]) + args, kwargs, st, ctx, node, awaited)
@@ -3138,6 +3152,9 @@ class Interp:
         cond = self.truth(self.eval(node.test, st, ctx), st)
         if is_c(cond):
             return self.eval(node.body if cond[1] else node.orelse, st, ctx)
+        d_ = decided_by(st.pc, cond) if _is_cond(cond) else None
+        if d_ is not None:
+            return self.eval(node.body if d_ else node.orelse, st, ctx)      # the path has already decided the test
         # evaluate both arms; may-raise conditions of an arm are guarded by the arm's condition
         p0 = len(st.pending)
         a = self.eval(node.body, st, ctx)
@@ -3149,6 +3166,12 @@ class Interp:
         for i in range(p1, len(st.pending)):
             e, cnd, w, nev = st.pending[i]
             st.pending[i] = (e, conj([neg(cond), cnd]), w, nev)
+        sa_, sb_ = (T.to_seq(a) if self.lib._textlike(a) else None), (T.to_seq(b) if self.lib._textlike(b) else None)
+        if (sa_ is not None and sb_ is not None and sa_[1] == sb_[1] and sa_ != sb_ and not (is_c(a) and is_c(b)) and _is_cond(cond)
+                and (T.const_width(sa_) is None or T.const_width(sb_) is None or T.const_width(sa_) != T.const_width(sb_) or int(T.const_width(sa_)) > 8)):
+            # a choice between two whole texts (two packet templates, not a one-byte field): the statement is re-executed
+            # once per choice - the fork an `if` statement around it would be
+            raise NeedSplit(cond)
         return ite(cond, a, b)
 
     def ev_BoolOp(self, node: ast.BoolOp, st: State, ctx: Ctx) -> Term:
